@@ -4,6 +4,7 @@
   sd._SessionStorage.check_received / assign_outgoing
   sd.ServiceDiscoveryProtocol.sd_message_received (the per-entry dispatch), sd.ServiceDiscover.handle_offer / is_watching_service
   (control-flow SKELETONS: which component method is called, directly or through call_soon, under which condition)
+  sd.ServiceInstance.handle_subscribe (skeleton with its boolean result: stop / refresh, then Ack or Nack)
   service.SimpleService.message_received (the chain of checks deciding the reply: which error, positive reply or silence)
 with Python's ast module and emits theories/Generated/LogicGen.v: Gallina definitions gen_* that follow the Python
 statement by statement.  Proofs/GenEquiv.v proves gen_* equal to the hand-written model functions, so a change of these
@@ -380,6 +381,86 @@ def gen_skeletons(sd):
     return out
 
 
+# ---- sd.py: ServiceInstance.handle_subscribe (skeleton with a result) ----
+def call_key(call):
+    """(dotted callee below self, argument spellings) of self.<...>(...)"""
+    name = dotted(call.func)
+    if not name or not name.startswith("self."):
+        raise Abort("unsupported call: " + str(name))
+    def spell(a):
+        if isinstance(a, ast.Call) and not a.args and not a.keywords:
+            return (dotted(a.func) or "?") + "()"
+        return dotted(a) or "?"
+    return name[len("self."):], [spell(a) for a in call.args] + [f"{k.arg}={spell(k.value)}" for k in call.keywords]
+
+
+RET_CALLS = {
+    "eventgroup_subscribe_stopped": ("F_subscribe_stopped", ["addr", "subscription"]),
+    "subscriptions.refresh": ("F_subscriptions_refresh", ["subscription.ttl", "addr", "subscription", "self.listener.client_subscribed", "self.listener.client_unsubscribed"]),
+    "announcer._send_subscribe_nack": ("F_send_nack", ["subscription", "addr"]),
+    "announcer.queue_send": ("F_queue_ack", ["subscription.to_ack_entry()", "remote=addr"]),
+}
+
+
+def ret_act(st):
+    if not (isinstance(st, ast.Expr) and isinstance(st.value, ast.Call)):
+        raise Abort("handle_subscribe: expected a call, got " + type(st).__name__)
+    key, args = call_key(st.value)
+    if key not in RET_CALLS or RET_CALLS[key][1] != args:
+        raise Abort("handle_subscribe: unknown call or arguments: " + key + str(args))
+    return "GCall " + RET_CALLS[key][0]
+
+
+def ends(stmts):
+    return bool(stmts) and isinstance(stmts[-1], ast.Return)
+
+
+def skel_ret(stmts, cond):
+    """statement list in which every path returns a bool constant -> Gallina term : list gact * bool"""
+    if not stmts:
+        raise Abort("handle_subscribe: a path falls off the end")
+    st, rest = stmts[0], stmts[1:]
+    if isinstance(st, ast.Return):
+        if not (isinstance(st.value, ast.Constant) and isinstance(st.value.value, bool)):
+            raise Abort("handle_subscribe: return of a non-constant")
+        return "([], %s)" % ("true" if st.value.value else "false")
+    if isinstance(st, ast.Assign) and getattr(st.targets[0], "id", "") == "subscription" and isinstance(st.value, ast.Call) \
+            and dotted(st.value.func) == "EventgroupSubscription.from_subscribe_entry" and [getattr(a, "id", None) for a in st.value.args] == ["entry"]:
+        return skel_ret(rest, cond)
+    if isinstance(st, ast.If):
+        then_b = st.body if ends(st.body) else st.body + rest
+        else_b = (st.orelse if ends(st.orelse) else st.orelse + rest)
+        return f"(if {cond(st.test)} then {skel_ret(then_b, cond)} else {skel_ret(else_b, cond)})"
+    if isinstance(st, ast.Try):
+        if len(st.body) != 1 or len(st.handlers) != 1 or getattr(st.handlers[0].type, "id", "") != "NakSubscription" or st.finalbody:
+            raise Abort("handle_subscribe: unexpected try")
+        ok_b = st.orelse if ends(st.orelse) else st.orelse + rest
+        no_b = st.handlers[0].body if ends(st.handlers[0].body) else st.handlers[0].body + rest
+        return f"(gprep ({ret_act(st.body[0])}) (if accepted then {skel_ret(ok_b, cond)} else {skel_ret(no_b, cond)}))"
+    if isinstance(st, ast.Expr):
+        return f"(gprep ({ret_act(st)}) {skel_ret(rest, cond)})"
+    raise Abort("handle_subscribe: unsupported statement " + type(st).__name__)
+
+
+def gen_inst_subscribe(sd):
+    f = fn_ast(sd.ServiceInstance.handle_subscribe)
+    if [a.arg for a in f.args.args] != ["self", "entry", "addr"]:
+        raise Abort("ServiceInstance.handle_subscribe: unexpected parameters")
+    ex = Expr({"entry": ("entry", "e")})
+
+    def cond(n):
+        if isinstance(n, ast.Compare) and len(n.ops) == 1 and isinstance(n.ops[0], ast.Is) and dotted(n.left) == "self._task" \
+                and isinstance(n.comparators[0], ast.Constant) and n.comparators[0].value is None:
+            return "task_none"
+        if isinstance(n, ast.UnaryOp) and isinstance(n.op, ast.Not) and isinstance(n.operand, ast.Call) \
+                and dotted(n.operand.func) == "self.service.matches_subscribe" and [getattr(a, "id", None) for a in n.operand.args] == ["entry"]:
+            return "(negb matches)"
+        return ex.tr(n)
+    body = [s for s in body_of(f) if not is_noise(s)]
+    return ["Definition gen_inst_handle_subscribe (task_none matches : bool) (e : sdentry) (accepted : bool) : list gact * bool :=\n  "
+            + skel_ret(body, cond) + ".\n"]
+
+
 # ---- service.py: SimpleService.message_received (the reply decision chain of C16) ----
 MSG_ATTR = {"service_id": "m_sid m", "interface_version": "m_iv m", "method_id": "m_mid m", "message_type": "m_mt m", "return_code": "m_rc m"}
 SELF_ATTR = {"service_id": "svc_id", "version_major": "ver"}
@@ -492,7 +573,7 @@ def main():
         import someip.config as cfg
         import someip.sd as sd
         import someip.service as svc
-        parts = gen_matchers(cfg) + gen_check_received(sd) + gen_assign_outgoing(sd) + gen_skeletons(sd) + gen_service(svc)
+        parts = gen_matchers(cfg) + gen_check_received(sd) + gen_assign_outgoing(sd) + gen_skeletons(sd) + gen_inst_subscribe(sd) + gen_service(svc)
     except Abort as exc:
         print("gen_logic: ABORT:", exc)
         return 2
